@@ -452,6 +452,8 @@ type Contract struct {
 	Pragmas    []string
 	TracedArg  SExpr // traced callees: the key argument recorded in the caller's activation trace
 	TracedRes  SExpr // ... and the result recorded after the call
+	TracedRes2 SExpr // ... and a second result (e.g. the value produced)
+	AutoProps  []string // properties owning the generated safety obligations of this function (default: by package)
 	DefaultInv []Clause // invariants for every loop that has no explicit loop clause
 	PanicsOnlyWhen []Clause // may_panic functions: every explicit panic must be justified by one of these conditions
 	Captures   []Clause // closures: facts about the captured variables (checked where the closure is created)
@@ -588,6 +590,11 @@ func loadSpecFile(path string, sf *SpecFile) error {
 				return fail(fmt.Errorf("duplicate contract for %s (first at %s:%d)", key, old.File, old.Line))
 			}
 			sf.Contracts[key] = cur
+		case "autoprops":
+			if cur == nil {
+				return fail(fmt.Errorf("autoprops outside func"))
+			}
+			cur.AutoProps = strings.Fields(rest)
 		case "props":
 			if cur == nil {
 				return fail(fmt.Errorf("props outside func"))
@@ -605,11 +612,19 @@ func loadSpecFile(path string, sf *SpecFile) error {
 			}
 			cur.TracedArg = a
 			if len(parts) == 2 {
-				r, err := parseSpecExpr(strings.TrimSpace(parts[1]))
+				rs := strings.SplitN(parts[1], ";", 2)
+				r, err := parseSpecExpr(strings.TrimSpace(rs[0]))
 				if err != nil {
 					return fail(err)
 				}
 				cur.TracedRes = r
+				if len(rs) == 2 {
+					r2, err := parseSpecExpr(strings.TrimSpace(rs[1]))
+					if err != nil {
+						return fail(err)
+					}
+					cur.TracedRes2 = r2
+				}
 			}
 		case "loops":
 			if cur == nil {
